@@ -348,7 +348,7 @@ def mutate(el, rnd):
     el = copy.deepcopy(el)
     nodes = list(el.iter())
     kind = rnd.choice(['del-el', 'dup-el', 'swap', 'rename-el', 'del-attr', 'rename-attr', 'bad-attr', 'add-attr',
-                       'inject-text', 'inject-tail', 'bad-text', 'foreign-el'])
+                       'inject-text', 'inject-tail', 'bad-text', 'foreign-el', 'nest-in-leaf', 'nest-in-leaf', 'move-el'])
     parents = [n for n in nodes if len(n)]
     if kind in ('del-el', 'dup-el', 'swap', 'rename-el', 'inject-tail', 'foreign-el') and parents:
         p = rnd.choice(parents)
@@ -388,4 +388,23 @@ def mutate(el, rnd):
         leaves = [n for n in nodes if not len(n)]
         n = rnd.choice(leaves)
         n.text = rnd.choice(['@@bad@@', '', '-99999', '1e5', ' 7 '])
+    elif kind == 'nest-in-leaf':
+        # a known element inside an element that has no children here (mostly: one whose type allows none)
+        leaves = [n for n in nodes if not len(n)]
+        n = rnd.choice(leaves)
+        other = rnd.choice(nodes)
+        if rnd.random() < 0.5 and other is not el and not len(other):
+            child = copy.deepcopy(other)
+        else:
+            child = ET.Element(rnd.choice(['voice', 'type', 'words', 'dot', 'step', 'duration', n.tag]))
+            child.text = rnd.choice(['1', 'eighth', 'inner', None])
+        child.tail = None
+        n.append(child)
+    elif kind == 'move-el' and len(parents) > 1:
+        p = rnd.choice(parents)
+        q = rnd.choice(nodes)
+        k = p[rnd.randrange(len(p))]
+        if q is not k and q not in list(k.iter()):
+            p.remove(k)
+            q.append(k)
     return el, kind
